@@ -178,7 +178,7 @@ def correspond(rep, H, cases, name, prop, kindf=None):
         out = run_impl(H, case)
         items.append(coq_case(case, out))
         kept.append((case, out))
-        rep.count(case, nontrivial=(out[0] == "ok" and out[1] is not False), kind="%s:%s" % (case[0], out[0]))
+        rep.count(case, nontrivial=(out[0] == "ok" and out[1] is not False), kind="%s:%s" % (case[0], out[0] if case[0] != "xml" else out[1]))
     for k in (0, len(kept) // 3, 2 * len(kept) // 3, len(kept) - 1):
         if kept:
             rep.sample({"case": jsonable(kept[k][0]), "implementation": jsonable(kept[k][1])})
@@ -384,11 +384,11 @@ def run(rep, tier, rng):
     # ---------- D. constructors called directly, valid and invalid arguments mixed (model vs implementation) ----------
     def pick(valid, junk):
         r = rng.random()
-        return None if r < 0.25 else (rng.choice(valid) if r < 0.8 else rng.choice(junk))
+        return None if r < 0.25 else (rng.choice(valid) if r < 0.93 else rng.choice(junk))
     junk_s = ["", "X", "none", "NONE ", "TYPE1\n", "OFXSGM", "&amp;", "é", "A&lt;B"]
     uid_junk = ["", "a&amp;b", "&lt;" * 9, "&amp;" * 36, "&amp;" * 37, "x" * 37, "&nbsp;&apos;&quot;&gt;", "&amp;lt;", "ü" * 36, "a b", "&#65;"]
     for _ in range(3000 if thorough else 500):
-        ver = rng.choice([102, 103, 151, 160, 0, 1, 999, 1000, -5, "102", "0", "", "1_0_2", " 102 ", "+102", "١٠٢", "abc", "1000", "00102", "-0", 200, 220, 203, "203", "221"])
+        ver = rng.choice([102, 103, 151, 160, 0, 1, 999, 1000, -5, -999, -1000, "-1000", "-999", -12345, "102", "0", "", "1_0_2", " 102 ", "+102", "١٠٢", "abc", "1000", "00102", "-0", 200, 220, 203, "203", "221"])
         oh = rng.choice([None, None, 100, 200, 0, "100", "200", "", "0100", "x", 1])
         if rng.random() < 0.5:
             cases.append(("ctor1", ver, oh, pick(SPEC["DATA"], junk_s), pick(SPEC_SECURITY, junk_s), pick(SPEC["ENCODING"], junk_s), pick(SPEC["CHARSET"], junk_s),
